@@ -45,7 +45,7 @@ def write_replay(oid, payload):
 
 
 def prove_pairs(res, oid, pairs, hyp=None, sampler=None, pv=None, call=None, backend="nf", subst=None,
-                seed=0, rtol=1e-6, expect_fail=False, signvars=None, prec="d", inv_atoms=False, coef_tol=None):
+                seed=0, rtol=1e-6, expect_fail=False, signvars=None, prec="d", inv_atoms=False, coef_tol=None, cut=None):
     """Discharge `lhs == rhs` for every (entry, lhs, rhs) in pairs with the nf back end.
     On failure look for a numeric witness (inputs from `sampler` restricted to the path of `pv`) and replay it
     natively through `call` = (extract, fn, bufs).  One record per entry."""
@@ -75,8 +75,16 @@ def prove_pairs(res, oid, pairs, hyp=None, sampler=None, pv=None, call=None, bac
                              signvars=None, prec=prec)
             allok = allok and ok
         return allok
+    cut_failed = False
     try:
-        ctx, out = engine.nf_prove(pairs, hyp, subst, inv_atoms=inv_atoms, coef_tol=coef_tol)
+        if cut:
+            # generalised goal: sub-DAGs (libm calls, divisions) shared by both sides become fresh variables (sound, see diff.cut_shared)
+            cprs, _names = dd.cut_shared(pairs, ops=cut)
+            ctx, out = engine.nf_prove(cprs, hyp, subst, inv_atoms=inv_atoms, coef_tol=coef_tol)
+            backend = backend + "+cut"
+            cut_failed = any(not ok for _, ok, _ in out)
+        else:
+            ctx, out = engine.nf_prove(pairs, hyp, subst, inv_atoms=inv_atoms, coef_tol=coef_tol)
     except (poly.NotPolynomial, ZeroDivisionError, NotImplementedError) as e:
         for entry, _, _ in pairs:
             res.add("%s/%s" % (oid, entry), "error", backend, 0.0, "nf: %r" % (e,))
@@ -130,6 +138,10 @@ def prove_pairs(res, oid, pairs, hyp=None, sampler=None, pv=None, call=None, bac
                             e[nm] = cval
                         return e
                     wit = engine.numeric_witness(failed, pinned, seed=seed, rtol=1e-13, pathcond=pc)
+        if cut_failed and wit is None:
+            for entry, l, r in failed:
+                res.add("%s/%s" % (oid, entry), "error", backend, dt, "undecided: the generalised (cut) goal is not an identity and no differing input was found")
+            return False
         for entry, l, r in failed:
             if expect_fail:
                 res.add("%s/%s" % (oid, entry), "canary-refuted", backend, dt)
